@@ -194,6 +194,58 @@ fn run_hs(base: Instant, cfgs: &[PairCfg], c: &HsCase, dump: bool) -> (u64, Vec<
     }
 }
 
+/// The server is the sender while a copy of a client datagram arrives from an address that never
+/// answers: (trace hash, violations, near-limit count, bytes the server sent to that address)
+fn run_spoofed_rebinding(base: Instant, ipv4: bool, same_ip: bool, step: u64, silent: bool, dgrams: bool, dump: bool) -> Result<(u64, Vec<(String, String)>, u64, u64), String> {
+    guarded(|| {
+                let mut cfg = cfg_by_name("default");
+                cfg.ipv4 = ipv4;
+                if dgrams {
+                    // an MTU above 1200: datagrams to the unvalidated address may be larger than the
+                    // padded first one
+                    cfg.client.initial_mtu = 1400;
+                    cfg.server.initial_mtu = 1400;
+                }
+                // the server is the bulk sender (60 kB towards the client), so it has plenty to send to
+                // whatever it believes the client's address to be
+                let (mut bulk, _) = crate::scen::plans(Wl::W6, ReadMode::default());
+                if dgrams {
+                    // ... or application datagrams of alternating sizes (a small one never fills a
+                    // packet, a large one does not fit behind it), 240 of them
+                    bulk.streams.clear();
+                    bulk.datagrams = (0..240).map(|i| if i % 2 == 0 { 500 } else { 1300 }).collect();
+                }
+                // (with datagrams the copied client datagram is a large one - it carries a 1000-byte
+                // application datagram - and buys a budget of a few datagrams)
+                let mut p = crate::scen::std_pair_plans(base, &cfg, crate::app::Plan::default(), bulk);
+                let genuine = p.w.nodes[CLIENT].addr;
+                let fake = if same_ip { std::net::SocketAddr::new(genuine.ip(), genuine.port() + 7) } else if ipv4 { crate::sim::addr4(9) } else { addr(9) };
+                let mut script = vec![(step, if dgrams { crate::scen::Op::SpoofedCopyBig(fake) } else { crate::scen::Op::SpoofedCopy(fake) })];
+                if silent {
+                    script.push((step, crate::scen::Op::Blackhole(CLIENT)));
+                }
+                let _ = crate::scen::drive(&mut p, &script, 30_000, Duration::from_secs(20));
+                // (datagrams are not part of what `drive` waits for: give the exchange two more seconds)
+                let until = p.w.t + Duration::from_secs(2);
+                let mut g = 0;
+                while g < 20_000 {
+                    g += 1;
+                    match p.w.next_event() {
+                        Some((at, _)) if at <= until => {
+                            p.w.step();
+                        }
+                        _ => break,
+                    }
+                }
+                let (v, near) = amp_violations(&p);
+                let to_fake: u64 = p.w.recs.iter().map(|r| match r { Rec::Emit { node, dst, data, .. } if *node == SERVER && *dst == fake => data.len() as u64, _ => 0 }).sum();
+                if dump {
+                    print!("{}", crate::trace::dump(&p.w));
+                }
+                (p.w.trace_hash(), v, near, to_fake)
+    })
+}
+
 /// Spoofed Initial of a given size from an address that never continues
 /// `tail` = bytes of undecodable garbage after the Initial; `pkts` = number of well-formed but
 /// undecryptable coalesced Handshake-type packets after it (each 45 bytes)
@@ -361,36 +413,19 @@ pub fn main(args: &Args) -> ! {
             for same_ip in [true, false] {
                 for step in [24u64, 30, 36, 45, 60, 80] {
                     for silent in [false, true] {
-                        tasks.push((ipv4, same_ip, step, silent));
+                        for dgrams in [false, true] {
+                            tasks.push((ipv4, same_ip, step, silent, dgrams));
+                        }
                     }
                 }
             }
         }
-        let (res, capped) = e3(tasks, dl, |&(ipv4, same_ip, step, silent)| {
-            guarded(|| {
-                let mut cfg = cfg_by_name("default");
-                cfg.ipv4 = ipv4;
-                // the server is the bulk sender (60 kB towards the client), so it has plenty to send to
-                // whatever it believes the client's address to be
-                let (bulk, _) = crate::scen::plans(Wl::W6, ReadMode::default());
-                let mut p = crate::scen::std_pair_plans(base, &cfg, crate::app::Plan::default(), bulk);
-                let genuine = p.w.nodes[CLIENT].addr;
-                let fake = if same_ip { std::net::SocketAddr::new(genuine.ip(), genuine.port() + 7) } else if ipv4 { crate::sim::addr4(9) } else { addr(9) };
-                let mut script = vec![(step, crate::scen::Op::SpoofedCopy(fake))];
-                if silent {
-                    script.push((step, crate::scen::Op::Blackhole(CLIENT)));
-                }
-                let _ = crate::scen::drive(&mut p, &script, 30_000, Duration::from_secs(20));
-                let (v, near) = amp_violations(&p);
-                let to_fake: u64 = p.w.recs.iter().map(|r| match r { Rec::Emit { node, dst, data, .. } if *node == SERVER && *dst == fake => data.len() as u64, _ => 0 }).sum();
-                (p.w.trace_hash(), v, near, to_fake)
-            })
-        });
+        let (res, capped) = e3(tasks, dl, |&(ipv4, same_ip, step, silent, dgrams)| run_spoofed_rebinding(base, ipv4, same_ip, step, silent, dgrams, false));
         rep.exhaustive &= !capped;
         let mut reached = 0u64;
-        for ((ipv4, same_ip, step, silent), r) in &res {
+        for ((ipv4, same_ip, step, silent, dgrams), r) in &res {
             rep.evaluations += 1;
-            let rj = json!({"check":"c07","kind":"spoofed-rebinding","ipv4":ipv4,"same_ip":same_ip,"step":step,"silent":silent});
+            let rj = json!({"check":"c07","kind":"spoofed-rebinding","ipv4":ipv4,"same_ip":same_ip,"step":step,"silent":silent,"dgrams":dgrams});
             match r {
                 Err(e) => rep.violation(Violation { signature: "panic".into(), what: format!("spoofed rebinding ipv4={ipv4} same_ip={same_ip} step={step}: panic: {e}"), replay: rj }),
                 Ok((tr, v, _, to_fake)) => {
@@ -399,7 +434,7 @@ pub fn main(args: &Args) -> ! {
                         reached += 1;
                     }
                     for (sig, what) in v {
-                        rep.violation(Violation { signature: format!("{sig}:new-path"), what: format!("spoofed source ({}{}) at step {step}, genuine client {}: {what}", if *ipv4 { "IPv4, " } else { "IPv6, " }, if *same_ip { "same IP other port" } else { "other IP" }, if *silent { "silent afterwards" } else { "carries on" }), replay: rj.clone() });
+                        rep.violation(Violation { signature: format!("{sig}:new-path"), what: format!("spoofed source ({}{}) at step {step}, genuine client {}, server sending {}: {what}", if *ipv4 { "IPv4, " } else { "IPv6, " }, if *same_ip { "same IP other port" } else { "other IP" }, if *silent { "silent afterwards" } else { "carries on" }, if *dgrams { "application datagrams of 500 / 1300 bytes alternately (MTU 1400)" } else { "a bulk stream" }), replay: rj.clone() });
                     }
                 }
             }
@@ -610,6 +645,10 @@ fn replay(args: &Args) -> ! {
             let g = |k: &str| r[k].as_u64().unwrap_or(0) as usize;
             let (_, v, near, oc, to_fake) = run_spoof(Instant::now(), cfg, g("size"), g("copies").max(1), g("tail"), g("pkts"));
             println!("violations={v:?} near={near} connections={oc} bytes_sent_to_spoofed_address={to_fake}");
+        }
+        "spoofed-rebinding" => {
+            let o = run_spoofed_rebinding(Instant::now(), r["ipv4"].as_bool().unwrap_or(false), r["same_ip"].as_bool().unwrap_or(false), r["step"].as_u64().unwrap_or(30), r["silent"].as_bool().unwrap_or(false), r["dgrams"].as_bool().unwrap_or(false), true);
+            println!("{:?}", o.map(|(_, v, near, to_fake)| (v, near, to_fake)));
         }
         other => println!("replay kind {other}: parameters {r}"),
     }
